@@ -104,7 +104,7 @@ impl Property for C06 {
         "exploration"
     }
     fn rule(&self) -> &'static str {
-        "A scenario = clean generated stream with whitespace-delimited garbage regions (1..3 tokens of bytes that cannot start a JSON value, incl. } ] , : . e E + and non-UTF-8 bytes) dropped into its gaps (also before the first and after the last value) x one of the four --on-error policies x a pipeline of any class (JSON rows with the default separator under the stdout policy) x a seeded delivery plan. Compared with executions of the same build on the garbage-free stream (same policy and under `ignore`) and, for `panic` and for the placement of diagnostics under `stdout`, on the clean prefix cut before each region. A region counts only if the event log shows that its first byte was consumed. evaluations = jawk executions; non-trivial = at least one garbage region was reached; distinct = distinct abstract traces."
+        "A scenario = clean generated stream with whitespace-delimited garbage regions (1..3 tokens of bytes that cannot start a JSON value, incl. } ] , : . e E + and non-UTF-8 bytes) dropped into its gaps (also before the first and after the last value; in some scenarios the last token ends exactly at end of input, or the stream ends inside a truncated string/array/object; special tokens: byte-order marks, VT, FF, NEL, NBSP), arriving on stdin, as a file argument or as the only file of a directory argument (hook H2), with seeded short writes and EINTR on both sinks, x one of the four --on-error policies x a pipeline of any class (JSON rows with the default separator under the stdout policy) x a seeded delivery plan. Compared with executions of the same build on the garbage-free stream (same policy and under `ignore`) and, for `panic` and for the placement of diagnostics under `stdout`, on the clean prefix cut before each region. A region counts only if the event log shows that its first byte was consumed. evaluations = jawk executions; non-trivial = at least one garbage region was reached; distinct = distinct abstract traces."
     }
     fn assumptions(&self) -> Vec<String> {
         vec![
@@ -168,7 +168,32 @@ impl Property for C06 {
                 }
                 p.tag = "at-eof".into();
             }
+        } else if rng.chance(1, 5) {
+            // the producer died inside a value: the stream ends with a truncated string,
+            // array or object (bytes that are not part of any complete JSON value)
+            while case.pieces.last().map_or(false, |p| p.kind == Kind::Gap) {
+                case.pieces.pop();
+            }
+            let v = match rng.below(3) {
+                0 => Val::Str(gen_string(rng) + "x"),
+                1 => Val::Arr(vec![gen_val(rng, 2, false), gen_val(rng, 1, false)]),
+                _ => Val::Obj(vec![("k".into(), gen_val(rng, 2, false)), ("s".into(), Val::Str(gen_string(rng)))]),
+            };
+            let text = spell(&v, rng, 1);
+            let cut = rng.range(1, text.len() - 1);
+            let mut g = vec![*rng.pick(&[b' ', b'\n'])];
+            g.extend_from_slice(&text[..cut]);
+            let mut p = Piece::garbage(g);
+            p.tag = "truncated".into();
+            case.pieces.push(p);
         }
+        if rng.chance(1, 3) {
+            case.out = gen_sink_garnish(rng, 200);
+            case.err = gen_sink_garnish(rng, 200);
+        }
+        // 0 = stdin, 1 = a file argument behind the opener seam, 2 = that file as the only
+        // entry of a directory argument
+        case.set("via", *rng.pick(&[0i64, 0, 0, 1, 2]));
         let mut wish = PipeWish::any();
         wish.allow_corpus = false;
         if pol == Policy::Stdout {
@@ -178,6 +203,14 @@ impl Property for C06 {
         case.opts = gen_pipe(rng, &wish).opts;
         case.opts.push(policy_opt(pol));
         case.delivery = gen_delivery(rng, case.stream().len());
+        if case.param("via") > 0 {
+            if has_opt(&case.opts, "--take") {
+                // jawk's own read-ahead on files hides how far it really got
+                case.set("via", 0);
+            } else {
+                case.files = vec![gen_file_plan(rng, case.stream().len())];
+            }
+        }
         case
     }
 
@@ -215,14 +248,39 @@ impl Property for C06 {
                 ),
             );
         }
-        let r = ctx.exec(case_spec(case, &noisy));
+        let via = if case.files.len() == 1 && !has_opt(&case.opts, "--take") && !case.opts.iter().flatten().any(|t| t.contains('&')) {
+            case.param("via")
+        } else {
+            0
+        };
+        let r = match via {
+            1 => {
+                let paths = ctx.fresh_paths(1);
+                ctx.stats.probe("noisy stream delivered as a file argument");
+                ctx.exec(sim_files_spec(case, &paths, &[noisy.clone()], &case.files))
+            }
+            2 => {
+                let Some(dir) = ctx.fresh_dir() else {
+                    ctx.harness_error = Some("cannot create a directory".into());
+                    return None;
+                };
+                let paths = vec![format!("{dir}/only.json")];
+                ctx.stats.probe("noisy stream delivered as the only file of a directory argument");
+                let r = ctx.exec(sim_dir_spec(case, &dir, &paths, &[noisy.clone()], &case.files));
+                let _ = std::fs::remove_dir_all(&dir);
+                r
+            }
+            _ => ctx.exec(case_spec(case, &noisy)),
+        };
+        // how far the run got: jawk's side of the stdin seam, or what the file device delivered
+        let progressed = if via > 0 { r.obs.delivered } else { r.obs.consumed };
         if let Outcome::Abort(w) = &r.outcome {
             return viol("C06.terminates", format!("run aborted by the simulator: {w}"));
         }
         if matches!(r.outcome, Outcome::Panic(..)) {
             return None;
         }
-        let reached: Vec<&(usize, Vec<u8>)> = regs.iter().filter(|(o, _)| r.obs.consumed > *o).collect();
+        let reached: Vec<&(usize, Vec<u8>)> = regs.iter().filter(|(o, _)| progressed > *o).collect();
         ctx.stats.fault("garbage-region-reached", reached.len() as u64);
         ctx.stats.probe_n("garbage regions planned but never reached (run stopped first)", (regs.len() - reached.len()) as u64);
         if !reached.is_empty() {
@@ -236,6 +294,9 @@ impl Property for C06 {
             }
             if case.pieces.last().map_or(false, |p| p.kind == Kind::Garbage && p.tag == "at-eof") && reached.len() == regs.len() {
                 ctx.stats.probe("garbage token ends exactly at end of input");
+            }
+            if case.pieces.last().map_or(false, |p| p.kind == Kind::Garbage && p.tag == "truncated") && reached.len() == regs.len() {
+                ctx.stats.probe("stream ends inside a truncated value");
             }
         }
         let stdout_rule = |so: &[u8]| -> Option<Violation> {
@@ -356,13 +417,14 @@ impl Property for C06 {
                             format!("garbage at byte {} was consumed under panic but the run returned {}", reached[0].0, r.outcome.describe()),
                         );
                     }
-                    if r.obs.consumed > reached[0].0 + 1 + READ_AHEAD {
+                    let tail_truncated = case.pieces.last().map_or(false, |p| p.tag == "truncated");
+                    if !tail_truncated && progressed > reached[0].0 + 1 + READ_AHEAD {
                         return viol(
                             "C06.panic",
-                            format!("run went on for {} bytes past the first malformed byte", r.obs.consumed - reached[0].0),
+                            format!("run went on for {} bytes past the first malformed byte", progressed - reached[0].0),
                         );
                     }
-                    if r.obs.consumed <= reached[0].0 + 2 {
+                    if progressed <= reached[0].0 + 2 {
                         ctx.stats.probe("panic stopped within the look-ahead byte");
                     }
                     if class != Class::Buffering {
